@@ -37,23 +37,30 @@ def get(prog, a):
 
 
 def boundaries(prog, f):
+    """constant cut offsets (absolute within the buffer being framed: `split_at(32)` then
+    `.1.split_at(16)` cuts at 32 and 48, like `[..32]`/`[32..48]`/`[48..]`) and rotations, on the view of
+    f with its private helpers folded in"""
+    from ..inline import inline
     offs, rots = set(), []
-    for g in prog.unit(f):
+    v = f if getattr(f, "inlined", None) else inline(prog, f)
+    for root, cuts in cm.cut_points(prog, v).items():
+        offs |= cuts
+    for g in [v] + [u for u in prog.unit(f) if u.key != f.key]:
         for c in g.calls():
-            if c.path in IDX and len(c.args) == 2:
+            if c.path in ROT:
+                val = evaluate(call_arg_exprs(c)[1], {})
+                rots.append((c.path.split("_")[-1], val))
+            elif g is not v and c.path in IDX and len(c.args) == 2:
                 e = expr_of_operand(g, c.args[1])
                 if e.k == "agg" and e.c is not None:
                     for o in e.c:
-                        v = evaluate(o, {})
-                        if isinstance(v, int) and not isinstance(v, bool) and v != 0:
-                            offs.add(v)
-            elif c.path in SPLIT:
-                v = evaluate(call_arg_exprs(c)[1], {})
-                if isinstance(v, int) and v != 0:
-                    offs.add(v)
-            elif c.path in ROT:
-                v = evaluate(call_arg_exprs(c)[1], {})
-                rots.append((c.path.split("_")[-1], v))
+                        val = evaluate(o, {})
+                        if isinstance(val, int) and not isinstance(val, bool) and val != 0:
+                            offs.add(val)
+            elif g is not v and c.path in SPLIT:
+                val = evaluate(call_arg_exprs(c)[1], {})
+                if isinstance(val, int) and val != 0:
+                    offs.add(val)
     return offs, rots
 
 
@@ -186,17 +193,17 @@ def sealnonce(rep, prog):
     inits = [c for c in f.calls() if c.rpath.endswith("crypto_generichash_init")]
     ups = [c for c in f.calls() if c.rpath.endswith("crypto_generichash_update")]
     fins = [c for c in f.calls() if c.rpath.endswith("crypto_generichash_final")]
-    ok = len(inits) == 1 and len(ups) == 2 and len(fins) == 1
-    rep.ob("SEALNONCE", "init/update/update/final", ok, "generichash calls: init=%d update=%d final=%d" % (len(inits), len(ups), len(fins)), loc=f.loc())
+    seq = cm.absorb_sequence(f, ups) if ups else None
+    ok = len(inits) == 1 and seq is not None and len(seq) == 2 and len(fins) == 1
+    rep.ob("SEALNONCE", "init/update/update/final", ok, "generichash calls: init=%d update=%d (absorbing %s operand(s)) final=%d" % (
+        len(inits), len(ups), len(seq) if seq is not None else "unordered", len(fins)), loc=f.loc())
     if not ok:
         return
     outlen = evaluate(call_arg_exprs(inits[0])[1], {})
-    rep.ob("SEALNONCE", "outlen=NONCEBYTES", outlen == 24, "generichash output length %s (crypto_box_NONCEBYTES = 24)" % outlen, loc=inits[0].loc())
-    ups.sort(key=lambda c: (len(f.dom.get(c.bb, ())), c.bb))
-    a = cm.view_info(f, list(operand_locals(ups[0].args[1]))[0])[0]
-    b = cm.view_info(f, list(operand_locals(ups[1].args[1]))[0])[0]
-    rep.ob("SEALNONCE", "order epk||rpk", (a, b) == (2, 3) and ups[0].bb in f.dom.get(ups[1].bb, ()),
-           "first update absorbs parameter #%s, second parameter #%s (expected ephemeral pk then recipient pk)" % (a, b), loc=ups[0].loc())
+    rep.ob("SEALNONCE", "output length NONCEBYTES", outlen == 24, "generichash output length %s" % outlen, loc=inits[0].loc())
+    a, b = seq[0][0], seq[1][0]
+    rep.ob("SEALNONCE", "order epk||rpk", (a, b) == (2, 3) and all(x[2] in f.dom.get(fins[0].bb, ()) for x in seq) and all(inits[0].bb in f.dom.get(u.bb, ()) for u in ups),
+           "first absorbed operand is parameter #%s, second parameter #%s (expected ephemeral pk then recipient pk)" % (a, b), loc=ups[0].loc())
     out = cm.view_info(f, list(operand_locals(fins[0].args[1]))[0])[0]
     rep.ob("SEALNONCE", "output is the nonce", out == 1, "final writes parameter #%s" % out, loc=fins[0].loc())
     # the sealing function prepends epk: ciphertext[..32] <- epk from the generated pair
